@@ -27,6 +27,26 @@ claimed={
   text='Runtime monitor on every Check-accepted generated schema (type graphs with or / key shortcuts / allOf / legal recursion, optional recursion of depth 1..3 with the recursive member first/middle/last, keys with quotes/backslashes/control characters/non-ASCII, all-features generator): Example() must be well-formed JSON (encoding/json.Valid), be accepted by Validate on the same and on a fresh schema object, and for plain-JSON schemas be byte-equal to the example with annotations and whitespace removed; results copied at return time.',
   note='One known finding (required property inside a legal cycle is omitted at the recursion cut-off) with a class predicate decided on the model; schemas with ambiguous key shortcuts are Unspecified for the round trip.',
   technique='round-trip monitor (Example -> JSON validity -> Validate) + reference example for plain-JSON schemas', ref='7 (C15)'),
+ 'C05': dict(category='exploration',
+  text='Differential runtime monitor of Document.Check (strict and AllowTrailingNonSpaceCharacters) against an independent RFC 8259 automaton that is itself cross-checked with encoding/json at run time: exhaustive over a 16-symbol alphabet up to length 5 (quick) / 7 (thorough, 2.9e8 strings) and over a literal-word alphabet, dictionary mutation of generated valid texts at every offset, and a state-merged breadth-first exploration over (library control state via overlay hook, reference state) pairs with all 256 byte values on every pair, every edge confirmed by a real Check verdict.',
+  note='Texts accepted by the byte grammar but not valid UTF-8 are Unspecified. Without the hook the state-merged part is inconclusive and the rest still decides.',
+  technique='differential monitor against a reference automaton: bounded-exhaustive + state-merged exploration + mutation', ref='7 (C05)'),
+ 'C06': dict(category='exploration',
+  text='Trace monitor over the recorded NextLexeme event log of generated valid JSON texts: termination with io.EOF, stack discipline, spans inside the input and equal to the source slices, exact literal/key/container spans against the reference span tree (itself checked against encoding/json token offsets), value rebuilt from events alone equals the text; cross-scanner monitor: schema scanner and enum scanner event streams (overlay hooks) equal the document scanner stream on the same bytes, also when embedded among comments.',
+  note='Hooks vh_scanevents export the internal scanners; without them the cross-scanner part is inconclusive.',
+  technique='trace-specification monitor over recorded lexical event logs + cross-scanner differential', ref='7 (C06)'),
+ 'C07': dict(category='exploration',
+  text='Hostile-input runtime monitor: 815 corpus seeds x derivation families (every truncation, dictionary insert/substitute/delete, splices, random bytes; <=4 KiB) used in every role (root schema, user type, enum rule, regex type, document) with every constructor/method combination; per call: panic monitor, termination monitor (per-call CPU budget + driver crash/hang isolation), error-shape monitor (library error with code/message/position in the errors.As chain), position-inside-source monitor, rendering monitor (Error/Message/Line/SourceSubString/String/kit.ConvertError); plus every errors.Format call site, bare error value and ErrorCode constant of the CURRENT tree (extracted with go/parser at check time) replayed through the real formatter.',
+  note='API-misuse errors are outside the quantifier and not generated; site extraction is static (the evidence lists the sites), the verdict comes from executing the real formatting path.',
+  technique='fault-injection style input mutation with panic / shape / position / rendering / termination monitors + call-site replay', ref='7 (C07)'),
+ 'C11': dict(category='exploration',
+  text='History monitor (random histories of <=12 public operations over a pool of schemas sharing type objects, documents, enums, regex types, plus all histories of length <=3 over a 3-object pool; every result compared with the same single operation on freshly constructed objects), aliasing monitor (every handed-out value deep-snapshotted and re-compared after every later operation), and map-order monitor: the library is rebuilt from the current tree with every range-over-map rewritten to iterate in a forced order (ascending / descending / rotated) and verdict, code, position, AST, example and used types must be identical across orders.',
+  note='The rewritten copies are generated from the current tree by go/packages + go/ast at check time; if that fails the map-order part falls back to 20 natural repetitions and is reported inconclusive. Operations directly on a type object after it was compiled into a root are out of scope (documented assumption).',
+  technique='history / aliasing monitors vs fresh objects + forced map-iteration-order differential (source rewriting via overlay)', ref='7 (C11)'),
+ 'C12': dict(category='exploration',
+  text='Concurrency runtime monitor under the Go race detector: scenarios (one shared root hammered by 2..32 goroutines from a start barrier; with pool traffic from private schemas; several roots sharing the same type objects incl. allOf users first used concurrently; shared enum/regex objects), run in a -race build with shims only (race verdict) and in a rewritten build with injected yields/sleeps at every function entry (no shared memory, so no happens-before edges are added); monitors: race reports (log-counted, de-duplicated), every call result equals the sequential oracle, exactly-once load/compile bodies per object, porcupine linearizability of recorded ErrOnce Do-histories against a write-once register.',
+  note='Only interleavings the Go scheduler plus injected yields produce are observed; porcupine timeouts are inconclusive, never violations.',
+  technique='race detector + sequential-oracle result monitor + once counters + porcupine history checking under injected yields', ref='7 (C12)'),
  'C08': dict(category='exploration',
   text='Exhaustive-by-construction runtime monitor of Check: 10 node kinds x 3 positions x every subset (size <=3 quick, <=4 thorough) of the rule vocabulary plus an unknown name x parameter variants x ALL permutations of the written order (1.3e6 Check calls quick); order-independence is judged real-vs-real, the verdict against an applicability-matrix oracle written from the statement; plus an accept-biased family over applicable rules and every rule written twice.',
   note='Trusts the matrix oracle (internal/model/checkoracle.go); enum on containers and enum+const are Unspecified; error codes among rejecting permutations are recorded, not judged.',
